@@ -236,9 +236,12 @@ def advertised(kind, p, mode="direct"):
     for v in evse.allowable_pilot_signals:
         out.append(("evse.allowable_pilot_signals", v))
     net = ChargingNetwork()
-    if mode == "direct":
+    if mode in ("direct", "occupied"):
         net.register_evse(EVSE("PS-0", max_rate=32), 208, 0)
         net.register_evse(evse, 208, 0)
+        if mode == "occupied":
+            # a vehicle whose own charger limit (6.6 kW = 31.7 A at 208 V) is below the station's maximum and on no level
+            net.plugin(EV(0, 10, 30.0, "PS-X", "sess-9", Battery(60.0, 10.0, 6.6)))
     else:
         net.register_evse(evse, 240, 120)  # PS-X first: every re-ordering of the three ids moves it
         net.register_evse(EVSE("PS-Z", max_rate=80), 208, 0)
@@ -454,9 +457,9 @@ def execute(item, only=None):
                         break
     # ---- advertisements ------------------------------------------------------------
     finite_ends = not any(not math.isfinite(v) for iv in ivs for v in iv)
-    for mode in ("direct", "json", "mutated"):
+    for mode in ("direct", "json", "mutated", "occupied"):
       if (only is None or only.get("adv") == mode or (only.get("adv") is True and mode == "direct")) and (mode != "json" or finite_ends):
-        sfx = {"direct": "", "json": ":network-json", "mutated": ":after-caller-mutation"}[mode]
+        sfx = {"direct": "", "json": ":network-json", "mutated": ":after-caller-mutation", "occupied": ":station-occupied"}[mode]
         tag = kind + sfx
         try:
             adv, flags = advertised(kind, p, mode)
